@@ -15,6 +15,7 @@ class P(vlib.Prop):
     stages = (
         dict(name="readers", cmd="c15", args=lambda t, s: []),
         dict(name="sites", cmd="c15", args=lambda t, s: ["-stage", "sites"]),
+        dict(name="decoders", cmd="c15", args=lambda t, s: ["-stage", "decoders"]),
     )
     assumptions = (
         "library decoders (gzip, tar, yaml, json, ini, base64, regexp, bufio, strconv) are not modelled: their behaviour on malformed input is explored by the harness, not proved",
